@@ -163,7 +163,7 @@ func (g *G) WideTree(maxDepth, maxFan int) *xdoc.Doc {
 		}
 	}
 	top := d.Root.AddElem("", "r", "")
-	for len(top.Children) == 0 {
+	for len(top.Children) < 3 {
 		fill(top, 1)
 	}
 	return d.Finish()
